@@ -1,6 +1,14 @@
+#[cfg(not(feature = "verif_sim"))]
 use once_cell::sync::OnceCell;
+#[cfg(feature = "verif_sim")]
+use crate::verif_sync::OnceCell;
 use std::collections::HashMap;
+#[cfg(not(feature = "verif_sim"))]
 use std::sync::{Arc, Mutex};
+#[cfg(feature = "verif_sim")]
+use crate::verif_sync::Mutex;
+#[cfg(feature = "verif_sim")]
+use std::sync::Arc;
 
 #[derive(Hash, Eq, PartialEq)]
 enum DescriptorKey {
